@@ -1,4 +1,5 @@
 """C02 - the mailbox server cannot forge, alter, re-label, replay or reflect messages."""
+import re
 from ..env import World
 from ..sched import Scheduler
 from ..adversary import Tamper
@@ -271,6 +272,19 @@ def run_case(spec):
         nontrivial = [[(o["victim"], o["at"], o["op"], o.get("phase"), o.get("as")) for o in spec["ops"]],
                       [(v, k, kw.get("phase")) for (v, k, kw) in adv.tampered][:6]]
     verdicts = [a.close_results[0] if a.closed else "never" for a in (drv.a, drv.b)]
+    # an injected body that is merely undecryptable (plain hex of any length, under a phase and side label that are
+    # well-formed) is the "wrong password" situation: the client is scared, it does not trip over the message
+    plain = (len(spec["ops"]) == 1 and spec["ops"][0]["op"] == "inject" and not spec.get("late_words")
+             and re.fullmatch(r"version|[0-9]+", str(spec["ops"][0].get("phase", "0"))) and not dilated)
+    if plain:
+        for (v, kind, kw) in adv.tampered:
+            app = drv.app(v)
+            vd = app.close_results[0] if app.closed else "never"
+            if vd in ("AssertionError", "ValueError", "TypeError", "KeyError", "IndexError", "AttributeError", "CryptoError") and \
+                    re.fullmatch(r"([0-9a-f]{2})*", str(kw.get("body"))) and str(kw.get("side", "")).isascii():
+                viol.append({"key": "C02/trips-over-an-undecryptable-message/" + vd, "msg": "%s: injected %d undecryptable bytes under phase %r; the wormhole ended with %s, not WrongPasswordError" % (
+                    v, len(str(kw.get("body"))) // 2, kw.get("phase"), vd), "witness": wit(app)})
+                break
     return {"violations": viol, "nontrivial": nontrivial,
             "counters": {"tampered_sent": len(adv.tampered), "tampered_processed": processed, "delivered": delivered,
                          "complete_despite_tamper": int(drv.all_delivered()), "dilated_cases": int(dilated), "long_sessions": int(bool(spec.get("long"))),
